@@ -9,8 +9,14 @@ Proof:  lean/ScenicModel/Props/C15.lean over Model/Determinism.lean (sampleAll a
         each needed.  Instantiated on data regenerated from /repo by translate/determinism.py (container
         kinds on the way into Scenario.dependencies, the bracket, the activation comparator, the private
         generator sites, the shape of the weighted checker).
+        Props/C15Deps.lean over Model/DepOrder.lean (how Scenario.dependencies is put together at compile time:
+        closures per atomic proposition, closure cells, per-requirement dependencies, accumulated requirement
+        dependencies, the concatenation; parametric in the container kinds, the order of the segments and the
+        order of the sources, all three regenerated from /repo): the tuple is independent of object addresses,
+        hence compile + generate as a whole is; witness that one address-hashed set breaks it.
 Tie:    (T) the translator; (C) the Lean driver against the real code: (a) binding order of the real
-        Samplable.sampleAll on the object graphs of generated programs, (b) the real
+        Samplable.sampleAll on the object graphs of generated programs, (a') every stage of the construction of
+        Scenario.dependencies by the real compiler under passive hooks, (b) the real
         Scenario.generateBatch/_generateInner and the real WeightedAcceptanceChecker/BasicChecker run on
         stub nodes and stub requirements over the real generator streams (values, iteration counts and the
         exact positions of both generators afterwards).
@@ -33,10 +39,14 @@ THEOREMS = [
     "Scenic.C15.generate_indep_of_checker",
     "Scenic.C15.check_does_not_perturb",
     "Scenic.C15.checker_timing_irrelevant",
+    "Scenic.C15.sorted_checker_timing_irrelevant",
     "Scenic.C15.weighted_equals_basic",
     "Scenic.C15.verdict_is_mandatory_any",
     "Scenic.C15.layout_independent",
     "Scenic.C15.sampleAll_layout_independent",
+    "Scenic.C15.dependencies_canonical",
+    "Scenic.C15.compile_and_generate_layout_independent",
+    "Scenic.C15.requirement_deps_exact",
     "Scenic.C15.activation_consumption_fixed",
     "Scenic.C15.earlier_scenes_unaffected",
     "Scenic.C15.order_matters_witness",
@@ -44,18 +54,25 @@ THEOREMS = [
     "Scenic.C15.impure_requirement_order_witness",
     "Scenic.C15.optional_nonredundant_witness",
     "Scenic.C15.set_order_layout_dependent_witness",
+    "Scenic.C15.closure_set_layout_dependent_witness",
     "Scenic.Det.loop_indep_of_checker",
     "Scenic.Det.generateMany_indep_of_checker",
     "Scenic.Det.arranged_verdict",
     "Scenic.Det.sampleAll_ren",
     "Scenic.Det.generateMany_ren",
+    "Scenic.Det.dependencies_ren",
+    "Scenic.Det.orderedDedup_map",
+    "Scenic.Det.nodup_orderedDedup",
+    "Scenic.Det.mem_sortByCost",
+    "Scenic.Det.sorted_sortByCost",
 ]
 SIDE = [
     "Scenic.C15.gen_bracket_full",
-    "Scenic.C15.gen_unordered_roots_known",
-    "Scenic.C15.gen_sites_consistent",
+    "Scenic.C15.gen_sites_all_ordered",
+    "Scenic.C15.gen_no_unordered_roots",
+    "Scenic.C15.gen_site_lists_agree",
+    "Scenic.C15.gen_segments_complete",
     "Scenic.C15.gen_private_sites",
-    "Scenic.C15.gen_dependency_terms",
 ]
 
 FINGERPRINTS = {
@@ -80,9 +97,10 @@ FINGERPRINTS = {
     "MeshRegion.mesh": ("src/scenic/core/regions.py", "MeshRegion.mesh"),
 }
 
-CLOSURE_SITE = "requirement.getNameBindings.closures"
 # families whose programs never sample from numpy.random outside requirement checking (no mesh-volume sampling)
-NP_FREE_FAMILIES = {"reqonly", "closure", "behavior", "mode2d"}
+NP_FREE_FAMILIES = {"reqonly", "closure", "closure2", "behavior", "mode2d"}
+# data extracted from the pinned tree (written together with the fingerprints); used when the templates no longer match
+PINNED = os.path.join(os.path.dirname(os.path.dirname(os.path.abspath(__file__))), "translate", "determinism_pinned.json")
 MOD = 1000003
 TWO53 = 2 ** 53
 
@@ -129,6 +147,44 @@ def fam_closure(rng):
     ls.append(f"require {terms} < {round(0.5 * n * (n + 1) / 2 * rng.choice([0.8, 0.9, 1.0]), 3)}")
     ls.append(f"require f0() + {rng.choice([0.1, 0.2])} < f{n - 1}()")
     ls.append("param p = Range(0, 1)")
+    return "\n".join(ls) + "\n", {}, False
+
+
+def fam_closure2(rng):
+    """requirements with several atomic propositions reading functions with one or two closure cells, some
+    functions met several times, a shared cell value, random values bound to two names, `can see`"""
+    n = rng.randint(3, 5)
+    ls = ["def mk(x):", "    def h():", "        return x", "    return h",
+          "def mk2(x, y):", "    def h():", "        return x + y", "    return h",
+          "shared = Range(0, 1)"]
+    for i in range(n):
+        ls.append(f"f{i} = mk(Range(0, 1))")
+    ls.append("g0 = mk2(Range(0, 1), shared)")
+    ls.append("g1 = mk2(shared, Range(0, 1))")
+    ls.append("alias = f0")
+    ls.append("ego = new Object at (0, 0, 0), with allowCollisions True")
+    ls.append(f"o1 = new Object at {_pos(rng, 1)}, with allowCollisions True")
+    fs = [f"f{i}" for i in range(n)] + ["g0", "g1", "alias"]
+
+    def atom():
+        a, b = rng.sample(fs, 2)
+        return rng.choice([f"{a}() + {rng.choice([1, 2, 3])} * {b}() < {rng.choice([2.5, 3.5, 4.5])}",
+                           f"{a}() < {b}() + {rng.choice([0.3, 0.6, 0.9])}", f"{a}() + shared < 1.9"])
+    for _ in range(rng.randint(2, 4)):
+        k = rng.random()
+        if k < 0.4:
+            ls.append(f"require ({atom()}) and ({atom()})")
+        elif k < 0.6:
+            ls.append(f"require ({atom()}) or ({atom()})")
+        elif k < 0.8:
+            ls.append(f"require[{rng.choice([0.5, 0.9])}] {atom()}")
+        else:
+            ls.append(f"require {atom()}")
+    if rng.random() < 0.5:
+        ls.append("require (ego can see o1) or shared > 2")
+    ls.append("param p = shared")
+    ls.append("param q = Range(0, 1)")
+    ls.append(f"param r = {rng.choice(['shared', '3', 'ego'])}")
     return "\n".join(ls) + "\n", {}, False
 
 
@@ -223,8 +279,8 @@ def fam_numpyuser(rng):
     return "\n".join(ls) + "\n", {}, False
 
 
-FAMILIES = [("reqonly", fam_reqonly), ("closure", fam_closure), ("behavior", fam_behavior), ("objects", fam_objects),
-            ("regions", fam_regions), ("mode2d", fam_mode2d), ("numpyuser", fam_numpyuser)]
+FAMILIES = [("reqonly", fam_reqonly), ("closure", fam_closure), ("closure2", fam_closure2), ("behavior", fam_behavior),
+            ("objects", fam_objects), ("regions", fam_regions), ("mode2d", fam_mode2d), ("numpyuser", fam_numpyuser)]
 
 
 # =========================================================================== worker (fresh subprocess)
@@ -582,6 +638,7 @@ def direct_processes(ctx, roots, Infra):
     nprog = ctx.budget(12, 84)
     nproc = ctx.budget(3, 8)       # fresh interpreters (own hash seed / environment / pre-import heap)
     nvar = ctx.budget(4, 6)        # perturbation variants per (program, interpreter); the first runs fresh
+    wave = 12                      # programs per wave; the search stops after the wave in which a violation was found
     fams = list(FAMILIES)
     progs = []
     for i in range(nprog):
@@ -590,10 +647,12 @@ def direct_processes(ctx, roots, Infra):
         progs.append({"family": name, "program": code, "options": options, "sim": sim, "seed": rng.randrange(2 ** 31),
                       "nscenes": rng.choice([2, 3]), "steps": rng.choice([5, 8, 12])})
     zygotes = make_zygotes(rng, nproc)
+    nwaves = (nprog + wave - 1) // wave
     budget_s = float(os.environ.get("VERIF_C15_ORACLE_S") or ctx.budget(100, 1000))
     for z in zygotes:
-        z["parallel"] = max(1, min(6, (os.cpu_count() or 4) // nproc))
-        z["budget_s"] = budget_s  # soft: on an overloaded machine the remaining programs are skipped, never failed
+        z["parallel"] = int(os.environ.get("VERIF_C15_PAR") or max(1, min(6, (os.cpu_count() or 4) // nproc)))
+        # soft, per wave: on an overloaded machine the remaining programs are skipped, never failed
+        z["budget_s"] = budget_s / nwaves
     jobs = []
     for zi in range(nproc):
         row = []
@@ -604,20 +663,38 @@ def direct_processes(ctx, roots, Infra):
             row.append(dict(pr, variants=variants))
         jobs.append(row)
     t0 = _time.time()
-    results = [None] * nproc
-    with concurrent.futures.ThreadPoolExecutor(max_workers=nproc) as ex:
-        futs = {ex.submit(run_zygote, zygotes[zi], jobs[zi]): zi for zi in range(nproc)}
-        for f in concurrent.futures.as_completed(futs):
-            try:
-                results[futs[f]] = f.result()
-            except subprocess.TimeoutExpired:
-                raise Infra("a C15 process-oracle interpreter timed out")
     info = ctx.extra["process_oracle"] = {"programs": nprog, "fresh_interpreters": nproc, "variants_per_process": nvar,
                                           "runs": 0, "fresh_runs": 0, "skipped_at_deadline": 0,
-                                          "inprocess_divergences_not_reproduced_fresh": 0}
+                                          "inprocess_divergences_not_reproduced_fresh": 0, "waves_run": 0}
     found = False
-    for pi, pr in enumerate(progs):
-        base_res = results[0][pi]
+    for w in range(nwaves):
+        lo, hi = w * wave, min(nprog, (w + 1) * wave)
+        results = [None] * nproc
+        with concurrent.futures.ThreadPoolExecutor(max_workers=nproc) as ex:
+            futs = {ex.submit(run_zygote, zygotes[zi], jobs[zi][lo:hi]): zi for zi in range(nproc)}
+            for f in concurrent.futures.as_completed(futs):
+                try:
+                    results[futs[f]] = f.result()
+                except subprocess.TimeoutExpired:
+                    raise Infra("a C15 process-oracle interpreter timed out")
+        info["waves_run"] += 1
+        found |= compare_wave(ctx, roots, Infra, info, progs, zygotes, jobs, results, lo, hi, nproc, nvar)
+        if found:
+            if hi < nprog:
+                ctx.notes.append(f"process oracle: stopped after wave {w + 1} of {nwaves} (a violation was found)")
+            break
+    info["wall_s"] = round(_time.time() - t0, 1)
+    if info["skipped_at_deadline"]:
+        ctx.notes.append(f"process oracle: {info['skipped_at_deadline']} of {nprog * nproc * nvar} runs skipped at the "
+                         f"soft deadline ({budget_s:.0f} s after the interpreters had imported Scenic; machine overloaded)")
+    return found
+
+
+def compare_wave(ctx, roots, Infra, info, progs, zygotes, jobs, results, lo, hi, nproc, nvar):
+    found = False
+    for pi in range(lo, hi):
+        pr = progs[pi]
+        base_res = results[0][pi - lo]
         if base_res.get("skipped"):
             info["skipped_at_deadline"] += nproc * nvar
             continue
@@ -642,7 +719,7 @@ def direct_processes(ctx, roots, Infra):
                 found = True
         reported = False
         for zi in range(nproc):
-            res = results[zi][pi]
+            res = results[zi][pi - lo]
             if res.get("skipped"):
                 info["skipped_at_deadline"] += nvar
                 continue
@@ -670,19 +747,13 @@ def direct_processes(ctx, roots, Infra):
                         info["inprocess_divergences_not_reproduced_fresh"] += 1
                         continue
                 reported = True
-                if pr["family"] == "closure" and CLOSURE_SITE in roots:
-                    key = "unordered-site:" + CLOSURE_SITE
-                else:
-                    key = f"process-divergence:{pr['family']}"
+                key = f"process-divergence:{pr['family']}"
                 what = (f"same program ({pr['family']}), options and seed {pr['seed']} gave different results in two "
                         f"fresh processes (PYTHONHASHSEED 0 vs {b['z']['hashseed']}, perturbations "
-                        f"{sorted(set(b['spec']['variants'][0]) - {'prealloc_seed'})}): first difference at {diff}")
+                        f"{sorted(set(b['spec']['variants'][0]) - {'prealloc_seed'})}): first difference at {diff}"
+                        + (f"; containers iterated in an address-dependent order according to the translator: {roots}" if roots else ""))
                 if ctx.violation(key, what, {"kind": "processes", "a": a, "b": b}):
                     found = True
-    info["wall_s"] = round(_time.time() - t0, 1)
-    if info["skipped_at_deadline"]:
-        ctx.notes.append(f"process oracle: {info['skipped_at_deadline']} of {nprog * nproc * nvar} runs skipped at the "
-                         f"soft deadline ({budget_s:.0f} s after the interpreters had imported Scenic; machine overloaded)")
     return found
 
 
@@ -720,30 +791,23 @@ def extract_graph(scenario):
     return ids, table, order, keep
 
 
-def corr_graph(ctx):
-    import numpy
-    import scenic
-    from scenic.core.distributions import RejectionException, Samplable
-    rng = ctx.rng
-    lines, expected, metas = [], [], []
-    log = []
-    orig = Samplable.sample
+class GraphCorr:
+    """(C-a) binding order of the real Samplable.sampleAll on the object graph of a compiled scenario, for three
+    dependency orders (as compiled, reversed, shuffled), against the model's sampleAll"""
 
-    def logged(self, subsamples=None):
-        r = orig(self, subsamples)
-        log.append(id(self))
-        return r
-    fams = [f for f in FAMILIES if f[0] != "numpyuser"]
-    for pi in range(ctx.budget(14, 200)):
-        name, fn = fams[pi % len(fams)]
-        code, options, _ = fn(rng)
-        random.seed(rng.getrandbits(32))
-        numpy.random.seed(rng.getrandbits(32))
-        try:
-            sc = scenic.scenarioFromString(code, **options)
-        except Exception as e:
-            ctx.hist("graph_program", f"{name}:invalid:{type(e).__name__}")
-            continue
+    def __init__(self, ctx):
+        self.ctx, self.lines, self.expected, self.metas = ctx, [], [], []
+
+    def add(self, sc, name, code):
+        from scenic.core.distributions import RejectionException, Samplable
+        ctx, rng = self.ctx, self.ctx.rng
+        log = []
+        orig = Samplable.sample
+
+        def logged(self_, subsamples=None):
+            r = orig(self_, subsamples)
+            log.append(id(self_))
+            return r
         ids, table, order, keep = extract_graph(sc)
         # also a permuted order (the model must follow whatever order it is given)
         for variant in ("dependencies", "reversed", "shuffled"):
@@ -765,28 +829,197 @@ def corr_graph(ctx):
             unknown = [i for i in log if i not in ids]
             o = [ids[id(q)] for q in deps if ids[id(q)] in table]
             nodes = " ".join(f"{n}:no:0:{','.join(map(str, ds)) or '-'}" for n, ds in sorted(table.items()))
-            lines.append(f"C15 sample | | | {' '.join(map(str, o))} | {nodes}")
-            expected.append((real, rejected, len(unknown)))
-            metas.append((name, variant, code))
+            self.lines.append(f"C15 sample | | | {' '.join(map(str, o))} | {nodes}")
+            self.expected.append((real, rejected, len(unknown)))
+            self.metas.append((name, variant, code))
             ctx.hist("graph_nodes", min(len(table) // 10 * 10, 100))
+
+    def finish(self):
+        ctx = self.ctx
+        if not self.lines:
+            return
+        outs = ctx.driver(self.lines)
+        bad = 0
+        for ln, out, (real, rejected, unknown), (name, variant, code) in zip(self.lines, outs, self.expected, self.metas):
+            ctx.case(("graph", ln), nontrivial=len(real) > 3)
+            ctx.hist("graph_case", f"{name}:{variant}:{'rejected' if rejected else 'sampled'}")
+            toks = out.split()
+            model = [int(t.split("=")[0]) for t in toks[1:] if "=" in t and not t.startswith(("py=", "np="))]
+            # identities outside the extracted graph are nested sampling done inside some sampleGiven: not the traversal
+            if unknown:
+                ctx.hist("graph_nested_sampling", name)
+            ok = toks and toks[0] == "ok" and (model[:len(real)] == real if rejected else model == real)
+            if not ok:
+                bad += 1
+                if bad <= 3:
+                    ctx.broken("correspondence", "binding order of Samplable.sampleAll vs model",
+                               f"{name}/{variant}: real={real[:40]} model={model[:40]} unknown={unknown} program={code[:300]!r}")
+
+
+# =========================================================================== (C-c) construction of the dependency tuple
+def _expected_closure_sequence(req):
+    """the functions with closure cells in the order getNameBindings meets them (may repeat): the requirement
+    itself if it has nonlocals, then the function values of its globals, then of its nonlocals"""
+    import inspect
+    ext = inspect.getclosurevars(req)
+    seq = []
+    if ext.nonlocals:
+        seq.append(req)
+    for bindings in (ext.globals, ext.nonlocals):
+        for value in bindings.values():
+            if inspect.isfunction(value) and value.__closure__ is not None:
+                seq.append(value)
+    return seq
+
+
+def corr_compile(ctx):
+    """(C-a) and (C-c) on the same compilations.  (C-c): run the real compiler on generated programs with passive hooks recording what the construction of
+    Scenario.dependencies reads (bindings, closure functions and their cells, objects, ego, parameters,
+    behavior globals) and what it produces at every stage (closures per atomic proposition, dependencies per
+    requirement, accumulated requirement dependencies, the final tuple); the Lean model of the construction
+    (Model/DepOrder.lean with the generated kinds / segment order / source order) must produce the same"""
+    import inspect
+    import numpy
+    import scenic
+    import scenic.core.requirements as R
+    import scenic.core.scenarios as S
+    from scenic.core.distributions import Samplable
+    from scenic.core.lazy_eval import needsSampling
+    rng = ctx.rng
+    rec = {}
+    orig_gnb, orig_init, orig_compile, orig_sinit = (R.getNameBindings, R.PendingRequirement.__init__,
+                                                     R.PendingRequirement.compile, S.Scenario.__init__)
+
+    def gnb(req, restrictTo=None):
+        res = orig_gnb(req, restrictTo)
+        if restrictTo is None and rec.get("cur") is not None:
+            rec["cur"].append((req, _expected_closure_sequence(req), tuple(res[2])))
+        return res
+
+    def pinit(self, *a, **kw):
+        rec["cur"] = []
+        try:
+            orig_init(self, *a, **kw)
+        finally:
+            rec["atoms"][id(self)] = rec["cur"]
+            rec["keep"].append(self)
+            rec["cur"] = None
+
+    def pcompile(self, namespace, scenario, syntax=None):
+        cr = orig_compile(self, namespace, scenario, syntax)
+        fv = dict(zip(cr.closure.__code__.co_freevars, cr.closure.__closure__))
+        cells = fv["cells"].cell_contents if "cells" in fv else ()
+        rec["compiled"].append({"preq": self, "deps": tuple(cr.dependencies), "cellvals": {id(c): v for c, v in cells},
+                                "cells_keep": cells, "objects": tuple(scenario.objects)})
+        return cr
+
+    def sinit(self, *a, **kw):
+        ba = inspect.signature(orig_sinit).bind(self, *a, **kw)
+        rec["scenario_args"] = dict(ba.arguments)
+        return orig_sinit(self, *a, **kw)
+
+    fams = [f for f in FAMILIES if f[0] != "numpyuser"]
+    graph = GraphCorr(ctx)
+    lines, expected, metas = [], [], []
+    R.getNameBindings, R.PendingRequirement.__init__, R.PendingRequirement.compile, S.Scenario.__init__ = gnb, pinit, pcompile, sinit
+    try:
+        for pi in range(ctx.budget(18, 200)):
+            name, fn = fams[(pi // 2) % len(fams)] if pi % 2 else ("closure2", fam_closure2)
+            code, options, _ = fn(rng)
+            rec.clear()
+            rec.update(atoms={}, keep=[], compiled=[], cur=None)
+            random.seed(rng.getrandbits(32))
+            numpy.random.seed(rng.getrandbits(32))
+            try:
+                sc = scenic.scenarioFromString(code, **options)
+            except Exception as e:
+                ctx.hist("deps_program", f"{name}:invalid:{type(e).__name__}")
+                continue
+            args = rec.get("scenario_args")
+            if args is None:
+                ctx.broken("correspondence", "construction of Scenario.dependencies vs model", "Scenario.__init__ was not called")
+                continue
+            ids, keep = {}, []
+
+            def n(o):
+                if id(o) not in ids:
+                    ids[id(o)] = len(ids) + 1
+                    keep.append(o)
+                return ids[id(o)]
+            needs, samp = set(), set()
+
+            def seen(v):
+                k = n(v)
+                if needsSampling(v):
+                    needs.add(k)
+                if isinstance(v, Samplable):
+                    samp.add(k)
+                return k
+            inst = [seen(o) for o in args["instances"]]
+            params = [seen(v) for v in dict(args["params"]).values()]
+            beh = [seen(v) for ns in args["behaviorNamespaces"].values() for v in ns.values()]
+            groups, real_c, real_d, objs = [], [], [], None
+            natoms = nfuncs = 0
+            for comp in rec["compiled"]:
+                preq = comp["preq"]
+                objs = [seen(o) for o in comp["objects"]]
+                atoms = rec["atoms"].get(id(preq), [])
+                atom_txt, atom_real = [], []
+                for _req, seq, closures in atoms:
+                    toks = []
+                    for f in seq:
+                        cv = [seen(comp["cellvals"][id(c)]) for c in f.__closure__ if id(c) in comp["cellvals"]]
+                        toks.append(f"{n(f)}:{','.join(map(str, cv)) or '-'}")
+                    atom_txt.append(" ".join(toks))
+                    atom_real.append(",".join(str(n(f)) for f in closures) or "-")
+                    natoms += 1
+                    nfuncs += len(seq)
+                allb = dict(preq.globalBindings)
+                allb.update(preq.closureBindings)
+                bvals = [seen(v) for v in allb.values()]
+                ego = "-" if preq.egoObject is None else str(seen(preq.egoObject))
+                groups.append(f"{' / '.join(atom_txt)} | {' '.join(map(str, bvals))} | {int('CanSee' in preq.globalBindings)} {ego}")
+                real_c.append("/".join(atom_real))
+                real_d.append(",".join(str(seen(v)) for v in comp["deps"]) or "-")
+            real_R = ",".join(str(seen(v)) for v in args["requirementDeps"]) or "-"
+            real_D = ",".join(str(seen(v)) for v in sc.dependencies) or "-"
+            if objs is None:
+                objs = [seen(o) for o in args["objects"]]
+            head = (f"C15 deps | {' '.join(map(str, inst))} | {' '.join(map(str, params))} | {' '.join(map(str, objs))} | "
+                    f"{' '.join(map(str, beh))} | {' '.join(map(str, sorted(needs)))} | {' '.join(map(str, sorted(samp)))}")
+            lines.append(" | ".join([head] + groups))
+            expected.append((real_c, real_d, real_R, real_D))
+            metas.append((name, code, keep))
+            ctx.hist("deps_program", f"{name}:ok")
+            ctx.hist("deps_requirements", min(len(groups), 8))
+            ctx.hist("deps_atoms", min(natoms, 12))
+            ctx.hist("deps_closure_functions", min(nfuncs // 4 * 4, 24))
+            ctx.hist("deps_tuple_length", min(len(sc.dependencies) // 5 * 5, 40))
+            graph.add(sc, name, code)
+    finally:
+        R.getNameBindings, R.PendingRequirement.__init__, R.PendingRequirement.compile, S.Scenario.__init__ = \
+            orig_gnb, orig_init, orig_compile, orig_sinit
+    graph.finish()
     if not lines:
         return
     outs = ctx.driver(lines)
     bad = 0
-    for ln, out, (real, rejected, unknown), (name, variant, code) in zip(lines, outs, expected, metas):
-        ctx.case(("graph", ln), nontrivial=len(real) > 3)
-        ctx.hist("graph_case", f"{name}:{variant}:{'rejected' if rejected else 'sampled'}")
-        toks = out.split()
-        model = [int(t.split("=")[0]) for t in toks[1:] if "=" in t and not t.startswith(("py=", "np="))]
-        # identities outside the extracted graph are nested sampling done inside some sampleGiven: not the traversal
-        if unknown:
-            ctx.hist("graph_nested_sampling", name)
-        ok = toks and toks[0] == "ok" and (model[:len(real)] == real if rejected else model == real)
+    for ln, out, (real_c, real_d, real_R, real_D), (name, code, _keep) in zip(lines, outs, expected, metas):
+        ctx.case(("deps", ln), nontrivial=len(real_d) > 0 and real_R != "-")
+        toks = dict(t.split("=", 1) for t in out.split()[1:] if "=" in t)
+        m_c = [x if x else "/".join("-" for _ in rc.split("/")) for x, rc in zip(toks.get("c", "").split(";"), real_c)] if real_c else []
+        m_d = toks.get("d", "").split(";") if real_d else []
+        ok = out.startswith("ok ") and m_c == real_c and m_d == real_d and toks.get("R") == real_R and toks.get("D") == real_D
         if not ok:
             bad += 1
+            stage = ("closures" if m_c != real_c else "requirement dependencies" if m_d != real_d else
+                     "accumulated requirement dependencies" if toks.get("R") != real_R else "Scenario.dependencies")
+            ctx.hist("deps_disagreement", stage)
             if bad <= 3:
-                ctx.broken("correspondence", "binding order of Samplable.sampleAll vs model",
-                           f"{name}/{variant}: real={real[:40]} model={model[:40]} unknown={unknown} program={code[:300]!r}")
+                ctx.broken("correspondence", "construction of Scenario.dependencies vs model",
+                           f"{name}: first disagreement at {stage}: real c={real_c} d={real_d} R={real_R} D={real_D}; "
+                           f"model {out[:400]}; program={code[:400]!r}")
+    ctx.extra["deps_correspondence"] = {"compilations": len(lines), "disagreements": bad}
 
 
 # =========================================================================== (C-b) stub scenario through the real loop
@@ -962,10 +1195,12 @@ def corr_generate(ctx):
 
 # =========================================================================== main
 def run(ctx):
-    from vlib.ctx import Infra, TemplateMismatch, load_findings
+    from vlib.ctx import Infra, TemplateMismatch
     ctx.rule = ("cases = (a) object graphs of generated programs x 3 dependency orders: binding order of the real "
-                "sampleAll vs model; (b) random stub DAGs/requirements/checkers/budgets through the real "
-                "generateBatch vs model, exact generator positions; (c) generated programs of 7 families x N fresh "
+                "sampleAll vs model; (a') the same compilations under passive hooks: closures per atomic proposition, "
+                "dependencies per requirement, accumulated requirement dependencies and Scenario.dependencies of the "
+                "real compiler vs the model of the construction; (b) random stub DAGs/requirements/checkers/budgets "
+                "through the real generateBatch vs model, exact generator positions; (c) generated programs of 8 families x N fresh "
                 "processes with different hash seeds, environment sizes, heap pre-allocations, checker timing "
                 "jitter, burnt randomness inside checks and interleaved extra scenes; non-trivial = at least one "
                 "rejection or more than 3 nodes / a scene was produced; distinct by content hash")
@@ -979,24 +1214,41 @@ def run(ctx):
                          "tools/props/c15.py (correspondence harness, process-level oracle)"]
     ctx.fingerprint(FINGERPRINTS)
     from translate import determinism
-    known = load_findings().get("C15", {})
-    allowed = [k.split(":", 1)[1] for k in known if k.startswith("unordered-site:")]
     roots = []
     try:
         d = determinism.extract()
         roots = d["roots"]
-        ctx.gen("Determinism", determinism.to_lean(d, allowed=allowed))
+        ctx.gen("Determinism", determinism.to_lean(d))
         ctx.extra["order_sites"] = {n: o for n, o, _ in d["sites"]}
         ctx.extra["unordered_roots"] = roots
+        ctx.extra["dependency_segments"] = d["segments"]
+        ctx.extra["compile_sources"] = d["sources"]
+        if os.environ.get("VERIF_UPDATE_FINGERPRINTS") == "1":
+            with open(PINNED, "w") as f:
+                json.dump(d, f, indent=1, sort_keys=True)
     except TemplateMismatch as e:
+        # never leave the data of another tree behind: fall back to the data of the pinned tree
+        try:
+            with open(PINNED) as f:
+                ctx.gen("Determinism", determinism.to_lean(json.load(f)))
+        except (OSError, ValueError, KeyError):
+            ctx.gen_restore("Determinism")
         ctx.escalated.append(f"translator tie lost (determinism): {e}")
         ctx.notes.append(f"translator tie lost: {e}; relying on the correspondence and the process oracle at thorough budget")
     pr = ctx.prove(THEOREMS, side_conditions=SIDE)
     if ctx.tier == "thorough" and pr.build_ok:
-        ctx.leanchecker(["ScenicModel.Props.C15", "ScenicModel.Lemmas.Determinism", "ScenicModel.Model.Determinism"])
+        ctx.leanchecker(["ScenicModel.Props.C15", "ScenicModel.Props.C15Core", "ScenicModel.Props.C15Deps",
+                         "ScenicModel.Lemmas.Determinism", "ScenicModel.Lemmas.DepOrder",
+                         "ScenicModel.Model.Determinism", "ScenicModel.Model.DepOrder"])
     found = False
-    if pr.build_ok:
-        corr_graph(ctx)
+    driver_ok = pr.build_ok
+    if not driver_ok:
+        # a side condition on the regenerated data no longer holds: the model itself (Model/ + Gen/) may still
+        # build, and then the correspondence still says whether the model follows the code
+        rc, _log = ctx.lake(["build", "drv_c15"])
+        driver_ok = rc == 0
+    if driver_ok:
+        corr_compile(ctx)
         corr_generate(ctx)
     found |= direct_processes(ctx, roots, Infra)
     ctx.resolve_brokens(found)
